@@ -104,6 +104,10 @@ def gen_cases(tier, seed):
     # one flat directory of glob matches that is moved out of reach of the pattern
     cases += [{"id": f"c14-flat-{seed}-{i}", "seed": seed * 6007 + 95000 + i, "rounds": 3, "scenario": "flat_glob"}
               for i in range(10 if tier == "quick" else 60)]
+    # plan edits in watch mode: a plan that fails, then its repair together with a change of something
+    # that only the (meanwhile detached) sub-plan declared
+    cases += [{"id": f"c14-phases-{seed}-{k}", "seed": seed * 6007 + 97000 + i, "rounds": 2, "scenario": k}
+              for i, k in enumerate(["failed_plan_then_edit", "failed_plan_then_new_match"])]
     return cases
 
 
@@ -311,6 +315,8 @@ def run_case(case):
                 "plans": {".": [["static", ["src/s0.txt"]], ["pattern", "in/*/*.src"], ["glob", "in/*/*.src", tmpl],
                                 ["glob", "in/*/"], ["step", "t0"]]},
                 "order": ["t0"]}
+    elif case.get("scenario", "").startswith("failed_plan"):
+        spec, phase_list = c01.SEED_SCENARIOS[case["scenario"]]()
     elif case.get("scenario") == "flat_glob":
         tmpl = {"cmd": "do " + json.dumps([{"a": "read", "path": "{m}"}, {"a": "write", "path": "out/g_{b}.txt"}]),
                 "inp": ["{m}"], "out": ["out/g_{b}.txt"]}
@@ -328,7 +334,7 @@ def run_case(case):
     os.chdir("watch")
     rounds = []
     try:
-        gen.render(spec)
+        state = {"files": gen.render(spec)}
         user_files = dict.fromkeys(gen.user_files(spec), True)
         cfg = {"njob": rng.choice([1, 2, 3]), "resources": "cpu:2,gpu:2", "watch": True}
         ctl = DuringBuild(rng.choice(["free", "jitter"]), rng.randrange(1 << 30))
@@ -357,7 +363,12 @@ def run_case(case):
                         break
                     events = []
                     memory["newdir"] = False
-                    for _ in range(rng.choice([1, 1, 2, 3])):
+                    if case.get("scenario", "").startswith("failed_plan"):
+                        # the user's edits of this phase (plans included), all at once
+                        state["files"] = gen.render(phase_list[k]["spec"], previous=state["files"])
+                        user_files.update(dict.fromkeys(gen.user_files(phase_list[k]["spec"]), True))
+                        events.append(["edit_phase", json.dumps(phase_list[k]["edits"])])
+                    for _ in range(0 if case.get("scenario", "").startswith("failed_plan") else rng.choice([1, 1, 2, 3])):
                         kind = rng.choice(EVENT_KINDS)
                         if case.get("scenario") == "deep_glob" and rng.random() < 0.4:
                             kind = rng.choice(["new_empty_dir", "new_sibling_dir", "remove_dir", "move_dir",
